@@ -57,10 +57,9 @@ namespace igris
                 return *this;
 
             clear();
-            m_size = other.m_size;
-            for (std::size_t pos = 0; pos < m_size; ++pos)
+            for (std::size_t pos = 0; pos < other.m_size; ++pos)
             {
-                new (&_data[pos]) T(other[pos]);
+                push_back(other[pos]);
             }
             return *this;
         }
@@ -71,10 +70,9 @@ namespace igris
                 return *this;
 
             clear();
-            m_size = other.m_size;
-            for (std::size_t pos = 0; pos < m_size; ++pos)
+            for (std::size_t pos = 0; pos < other.m_size; ++pos)
             {
-                new (&_data[pos]) T(std::move(other[pos]));
+                emplace_back(std::move(other[pos]));
             }
             other.clear();
             return *this;
